@@ -101,7 +101,7 @@ pub fn well_typed(sc: &Scenario) -> bool {
     let receives: Vec<bool> = sc
         .scripts
         .iter()
-        .map(|s| s.iter().any(|a| matches!(a, Act::Select(srcs) if srcs.contains(&Src::Recv))))
+        .map(|s| s.iter().any(|a| matches!(a, Act::Select(srcs) if srcs.iter().any(|x| matches!(x, Src::Recv | Src::RecvTag(_))))))
         .collect();
     for (s, script) in sc.scripts.iter().enumerate() {
         for a in script {
@@ -132,7 +132,7 @@ pub fn well_typed(sc: &Scenario) -> bool {
 }
 
 pub const KINDS: &[&str] = &[
-    "fan_in", "fan_out", "pipeline", "request_reply", "await_chain", "late_await", "unread_mail", "fail", "await_race", "stale_answer", "stale_failure", "mix",
+    "fan_in", "fan_out", "pipeline", "request_reply", "await_chain", "late_await", "unread_mail", "fail", "await_race", "stale_answer", "stale_failure", "selective", "mix",
 ];
 
 pub fn generate(r: &mut Rng, kind: &str) -> Scenario {
@@ -148,6 +148,7 @@ pub fn generate(r: &mut Rng, kind: &str) -> Scenario {
         "await_race" => await_race(r),
         "stale_answer" => stale_answer(r),
         "stale_failure" => stale_failure(r),
+        "selective" => selective(r),
         _ => mix(r),
     }
 }
@@ -752,6 +753,52 @@ fn run_session(b: &mut B, p: usize, _f: usize, reg: usize, mode: u8, k: usize) {
         }
         _ => {}
     }
+}
+
+/// Selective receive: several senders (tag = script index) send to one receiver, which picks the
+/// messages by tag filter in an order of its own (plus priority selects over two filters and
+/// unfiltered receives at the end). Messages that do not match stay in the mailbox.
+pub fn selective(r: &mut Rng) -> Scenario {
+    let mut b = B::new();
+    let k = 2 + r.usize(3);
+    let mut plan: Vec<u64> = vec![];
+    let mut kids = vec![];
+    for _ in 0..k {
+        let (f, reg) = b.spawn(0, &[0]);
+        let m = 1 + r.usize(3);
+        for _ in 0..m {
+            b.send(f, 1);
+            plan.push(f as u64);
+        }
+        kids.push(reg);
+    }
+    r.shuffle(&mut plan);
+    // the last few are taken unfiltered, some pairs by a two-filter priority select
+    let unfiltered = r.usize(plan.len().min(3) + 1);
+    let n = plan.len();
+    let mut i = 0;
+    while i < n - unfiltered {
+        let later_uses = |t: u64| plan[i + 2..n - unfiltered].contains(&t);
+        if i + 1 < n - unfiltered && plan[i] != plan[i + 1] && !later_uses(plan[i]) && !later_uses(plan[i + 1]) && r.chance(1, 2) {
+            // either of the two may come first; no later filtered select needs these tags, so
+            // whatever the two selects take, the rest of the script still finds its messages
+            b.select(0, vec![Src::RecvTag(plan[i]), Src::RecvTag(plan[i + 1])]);
+            b.select(0, vec![Src::RecvTag(plan[i]), Src::RecvTag(plan[i + 1])]);
+            i += 2;
+        } else {
+            b.select(0, vec![Src::RecvTag(plan[i])]);
+            i += 1;
+        }
+    }
+    for _ in 0..unfiltered {
+        b.recv(0);
+    }
+    if r.chance(1, 2) {
+        for reg in kids {
+            b.await1(0, reg);
+        }
+    }
+    b.finish("selective", true, false)
 }
 
 /// Static check of the confluence class: every select has one source, no timeouts, every mailbox
